@@ -350,3 +350,56 @@ def version_check(ctx, rep, rule):
         else:
             rep.check(rule, key, cfg.must_pass(body, [0], oks, set(edges)), "Ok(..) only for version %d" % want,
                       "a message can be decoded successfully without its version being %d" % want, body.loc(lines[0]), obligation=True)
+    # msgSecurityModel: only USM (3) is understood; the test must be an equality, any other model is refused
+    bs = [b for b in facts.body_list if b.path.startswith("<snmp::msg::v3::msg::SnmpV3Message<") and "TryFrom<&'a [u8]>>::try_from" in b.path]
+    if bs:
+        body = bs[0]
+        prov = flow.Prov(body)
+        errb = [bi for (bi, st, f, vn) in flow.aggregate_inits(body, "error::SnmpError") if vn == "UnknownSecurityModel"]
+        key = "snmp::msg::v3::msg::SnmpV3Message::try_from|security-model"
+        if not errb:
+            rep.violation(rule, key, "no UnknownSecurityModel exit: messages of any security model are parsed as USM", body.loc(), obligation=True)
+        else:
+            oks = flow.blocks_assigning_return(body, lambda rv: rv["k"] == "agg" and rv.get("vname") == "Ok")
+            gs = flow.guards(body, prov)
+            eqs = []
+            for g in gs:
+                ea = flow.eq_atom(g)
+                if ea and ((ea[0] == ("const", 3)) != (ea[1] == ("const", 3))) and errb[0] in cfg.reachable(body, [ea[3][1]]) and \
+                        flow.mentions(ea[1] if ea[0] == ("const", 3) else ea[0], lambda s_: s_[0] == "call" and (s_[1] or "").endswith("from_ber")):
+                    eqs.append((g, ea))
+            if not eqs:
+                rep.violation(rule, key, "msgSecurityModel is not compared for equality with 3 (USM): an ordering test lets other models through", body.loc(), obligation=True)
+            else:
+                rep.check(rule, key, cfg.must_pass(body, [0], oks, {ea[2] for g, ea in eqs}), "Ok(..) only for msgSecurityModel == 3",
+                          "a message with another security model can be decoded successfully", body.loc(eqs[0][0].line), obligation=True)
+
+
+def only_listed_rejections(ctx, rep, rule):
+    """A reply is refused by unwrap_pdu only for the reasons the protocol gives: community (v1/v2c); user name, engine id,
+    msgID (v3); request id (all); a failed decryption (v3).  Any other condition that leads straight to `return None` drops
+    replies the caller is entitled to - e.g. Reports, which an agent sends unauthenticated whatever the session's level."""
+    facts = ctx.facts
+    for ver, (cls, tr) in SOCKETS.items():
+        body = facts.body(tr + "::unwrap_pdu")
+        if body is None:
+            rep.missing(rule, tr + "::unwrap_pdu")
+            continue
+        prov = flow.Prov(body)
+        nones = flow.blocks_assigning_return(body, lambda rv: rv["k"] == "agg" and rv.get("vname") == "None")
+        n = 0
+        for g, pol, tgt in flow.deciding_guards(body, prov, nones):
+            n += 1
+            t = g.term
+            paths = {fp(s_) for s_ in flow.subterms(t) if fp(s_)}
+            names = {p_[-1] for p_ in paths if p_}
+            known = bool(names & {"community", "user_name", "engine_id", "msg_id", "request_id"}) or \
+                flow.mentions(t, lambda s_: s_[0] == "call" and (s_[1] or "").split("::")[-1] in ("check",)) or \
+                flow.mentions(t, lambda s_: s_[0] == "call" and (s_[1] or "").endswith("::decrypt"))
+            rep.check(rule, "%s::unwrap_pdu|rejection on %s" % (cls, flow.fmt(t)[:70]), known, "a listed reason",
+                      "a reply is dropped on a condition that is none of community / user / engine id / msgID / request id / decryption "
+                      "(%s is %s): replies the caller must see (e.g. unauthenticated Reports) are discarded and the call times out" % (flow.fmt(t)[:100], pol),
+                      body.loc(g.line), obligation=True)
+        if n == 0:
+            rep.inconclusive(rule, "%s::unwrap_pdu|rejections" % cls, "no guarded `return None` recognised", body.loc())
+
